@@ -1,6 +1,6 @@
 (* C01TableProofs.v — every entry of leaf_table is lossless and yields a leaf whose name is the table key. *)
 From V.lib Require Import Base.
-From V.c01 Require Import C01Codec C01Model C01LeafProofs C01Leaf2Proofs.
+From V.c01 Require Import C01Codec C01Model C01LeafProofs C01Leaf2Proofs C01Leaf3Proofs.
 
 Definition entry_ok (e : list N * (hdr -> parser (leaf * rsvT))) : Prop :=
   leaf_lossless (snd e) /\
@@ -16,6 +16,16 @@ Ltac nrun H :=
           end).
 Ltac name_of H := nrun H; unfold pret in H; injection H; intros; subst; cbn [leaf_name]; congruence.
 
+Lemma avcC_name h r l rsv r' : dec_avcC h r = Ok ((l, rsv), r') -> leaf_name l = n_avcC.
+Proof.
+  intros H. unfold dec_avcC in H. apply pbind_ok in H. destruct H as (data & r1 & _ & H).
+  destruct (avcc_rec data) as [[[l0 rsv0] extra]| | |] eqn:E; try discriminate. injection H as <- <- <-.
+  unfold avcc_rec in E. nrun E.
+  - unfold pret in E. injection E as <- _ _. reflexivity.
+  - cbv beta in E. match type of E with (match ?x with _ => _ end) = _ => destruct x end;
+      [injection E as <- _ _; reflexivity|]. nrun E. unfold pret in E. injection E as <- _ _. reflexivity.
+Qed.
+
 Lemma leaf_table_ok : Forall entry_ok leaf_table.
 Proof.
   unfold leaf_table.
@@ -28,11 +38,28 @@ Proof.
               | exact lossless_sdtp | exact lossless_ctts | exact lossless_elst | exact lossless_saiz
               | exact lossless_saio | exact lossless_sbgp | exact lossless_prft | exact lossless_tenc
               | exact lossless_frma | exact lossless_vmhd | exact lossless_smhd | exact lossless_fullonly
-              | exact lossless_mfro | exact lossless_mehd | exact lossless_tfra | exact lossless_pssh ];
+              | exact lossless_mfro | exact lossless_mehd | exact lossless_tfra | exact lossless_pssh
+              | exact lossless_url | exact lossless_avcC | exact lossless_btrt | exact lossless_pasp | exact lossless_colr
+              | exact lossless_clap | exact lossless_schm | exact lossless_cslg ];
     intros h r l rsv r' Hn H;
+    try (apply (avcC_name _ _ _ _ _ H));
     try (unfold dec_mdat in H; destruct (rdB (payload_len h) r) as [[x r1]| | |]; injection H; intros; subst; reflexivity);
     unfold dec_ftyp, dec_free, dec_mfhd, dec_tfhd, dec_tfdt, dec_trun, dec_mvhd, dec_tkhd, dec_sidx, dec_trex, dec_mdhd,
       dec_hdlr, dec_stts, dec_stsc, dec_stsz, dec_tab, dec_sdtp, dec_ctts, dec_elst, dec_saiz, dec_saio, dec_sbgp, dec_prft,
-      dec_tenc, dec_frma, dec_vmhd, dec_smhd, dec_fullonly, dec_mfro, dec_mehd, dec_tfra, dec_pssh in H;
+      dec_tenc, dec_frma, dec_vmhd, dec_smhd, dec_fullonly, dec_mfro, dec_mehd, dec_tfra, dec_pssh,
+      dec_url, dec_btrt, dec_pasp, dec_colr, dec_clap, dec_schm, dec_cslg in H;
     name_of H.
+Qed.
+
+(* the prefixed boxes: stsd, dref, sample entries *)
+Definition pre_entry_ok (e : list N * ((hdr -> parser (leaf * rsvT)) * loopkind)) : Prop :=
+  leaf_lossless (fst (snd e)) /\
+  (forall h r l rsv r', h_name h = fst e -> fst (snd e) h r = Ok ((l, rsv), r') -> leaf_name l = fst e).
+
+Lemma pre_table_ok : Forall pre_entry_ok pre_table.
+Proof.
+  unfold pre_table.
+  repeat apply Forall_cons; try apply Forall_nil; split; cbn [fst snd];
+    try first [ exact lossless_stsd | exact lossless_dref | exact lossless_visual | exact lossless_audio ];
+    intros h r l rsv r' Hn H; unfold dec_stsd, dec_dref, dec_visual, dec_audio in H; name_of H.
 Qed.
